@@ -1,6 +1,7 @@
 package main
 
 import (
+	"bytes"
 	"fmt"
 	"math"
 	"reflect"
@@ -242,6 +243,18 @@ func c06(args []string) {
 		if err == nil && len(b) != size {
 			emitJSON("FAIL", "", map[string]any{"kind": "size-vs-marshal", "value": coqValue(v), "size": size, "bytes": len(b)})
 		}
+		if err == nil { // appending to a buffer that already holds bytes (a message under construction) adds exactly the same bytes
+			for _, pre := range [][]byte{{0x00}, {0x41, 0x00}, {0xFF}, r.bytes(1 + r.intn(6))} {
+				keep := append([]byte(nil), pre...)
+				b2, err2 := v.MarshalAppend(append(make([]byte, 0, len(pre)+size+3), pre...), arch)
+				stat("marshal_append_onto_prefix", 1)
+				if err2 != nil || !bytes.Equal(b2, append(keep, b...)) {
+					emitJSON("FAIL", "", map[string]any{"kind": "marshal-append-depends-on-what-the-buffer-holds", "value": coqValue(v), "prefix": fmt.Sprintf("%x", keep),
+						"got": fmt.Sprintf("%x", b2), "want": fmt.Sprintf("%x", append(keep, b...)), "err": fmt.Sprint(err2)})
+					break
+				}
+			}
+		}
 		if sample {
 			emit("SAMPLE", fmt.Sprintf("value %s arch %d basetype %d: size %d bytes %x", coqValue(v), arch, bt, size, b))
 		}
@@ -306,6 +319,28 @@ func c06(args []string) {
 		emitVal(v, arch, bt, i < 3)
 	}
 	emitVal(proto.Value{}, 0, basetype.Uint8, false)
+	// floats by bit pattern: only the all-ones pattern is the invalid value; every other NaN (quiet, signalling, with payload),
+	// the infinities and the zeros are ordinary values -- as scalars and inside arrays, alone and next to the sentinel
+	{
+		p32 := []uint32{0xFFFFFFFF, 0x7FC00000, 0xFFC00000, 0x7FA00000, 0x7F800001, 0xFFFFFFFE, 0x7FFFFFFF, 0x7F800000, 0xFF800000, 0x80000000, 0, 0x3F800000}
+		p64 := []uint64{0xFFFFFFFFFFFFFFFF, 0x7FF8000000000000, 0xFFF8000000000000, 0x7FF4000000000000, 0x7FF0000000000001, 0xFFFFFFFFFFFFFFFE, 0x7FFFFFFFFFFFFFFF,
+			0x7FF0000000000000, 0xFFF0000000000000, 0x8000000000000000, 0, 0x3FF0000000000000}
+		for i, x := range p32 {
+			f := math.Float32frombits(x)
+			emitVal(proto.Float32(f), byte(i&1), basetype.Float32, false)
+			emitVal(proto.SliceFloat32([]float32{f}), byte(i&1), basetype.Float32, false)
+			emitVal(proto.SliceFloat32([]float32{f, math.Float32frombits(p32[(i+1)%len(p32)])}), byte(i&1), basetype.Float32, false)
+			emitVal(proto.SliceFloat32([]float32{math.Float32frombits(0xFFFFFFFF), f}), byte(i&1), basetype.Float32, false)
+		}
+		for i, x := range p64 {
+			f := math.Float64frombits(x)
+			emitVal(proto.Float64(f), byte(i&1), basetype.Float64, false)
+			emitVal(proto.SliceFloat64([]float64{f}), byte(i&1), basetype.Float64, false)
+			emitVal(proto.SliceFloat64([]float64{f, math.Float64frombits(p64[(i+1)%len(p64)])}), byte(i&1), basetype.Float64, false)
+			emitVal(proto.SliceFloat64([]float64{math.Float64frombits(0xFFFFFFFFFFFFFFFF), f}), byte(i&1), basetype.Float64, false)
+		}
+		stat("float_bit_pattern_values", 4*(len(p32)+len(p64)))
+	}
 	// Align / Valid dispatch: one value of every Go type against every base type of the protocol (and a few bytes that are none)
 	for k := proto.Type(1); k <= 24; k++ {
 		v := r.randValue(k)
@@ -426,6 +461,23 @@ type myStr string
 type myF32 float32
 type myI8s []int8
 type myBool bool
+type myU8s []uint8
+type myI16s []int16
+type myU16s []uint16
+type myI32s []int32
+type myU32s []uint32
+type myI64s []int64
+type myU64s []uint64
+type myF32s []float32
+type myF64s []float64
+type myStrs []string
+type myBools []bool
+type myI8 int8
+type myI16 int16
+type myI32 int32
+type myI64 int64
+type myU64 uint64
+type myF64 float64
 
 // c06Any: wrapping Go values into protocol values and unwrapping them preserves type and content (direct oracle).
 func c06Any(r *rng) {
@@ -480,6 +532,134 @@ func c06Any(r *rng) {
 		check("[]typedef.Sport", named, proto.TypeSliceUint8, u8)
 		check("[]string", strs, proto.TypeSliceString, strs)
 		check("pointer to uint16", &u16, proto.TypeSliceUint16, u16)
+	}
+	// every element kind, plain and through a named slice type (the reflection path), with spare capacity behind the length
+	// and as a re-sliced window of a longer array: only the len elements count
+	for i := 0; i < 40; i++ {
+		n := r.intn(6)
+		spare := r.pick(0, 1, 3, 8)
+		mk := func() []uint64 {
+			out := make([]uint64, n)
+			for j := range out {
+				out[j] = r.word()
+			}
+			return out
+		}
+		ws := mk()
+		{
+			a := make([]uint8, n, n+spare)
+			b := make(myU8s, n, n+spare)
+			for j, w := range ws {
+				a[j], b[j] = uint8(w), uint8(w)
+			}
+			check("[]uint8 cap>len", a, proto.TypeSliceUint8, a[:n:n])
+			check("named []uint8 cap>len", b, proto.TypeSliceUint8, []uint8(b[:n:n]))
+		}
+		{
+			a := make([]int16, n, n+spare)
+			b := make(myI16s, n, n+spare)
+			for j, w := range ws {
+				a[j], b[j] = int16(w), int16(w)
+			}
+			check("[]int16 cap>len", a, proto.TypeSliceInt16, a[:n:n])
+			check("named []int16 cap>len", b, proto.TypeSliceInt16, []int16(b[:n:n]))
+		}
+		{
+			a := make([]uint16, n+2, n+2+spare)
+			b := make(myU16s, n+2, n+2+spare)
+			for j := range a {
+				a[j], b[j] = uint16(r.word()), 0
+			}
+			copy(b, a)
+			check("[]uint16 window", a[1:1+n], proto.TypeSliceUint16, append([]uint16{}, a[1:1+n]...))
+			check("named []uint16 window", b[1:1+n], proto.TypeSliceUint16, append([]uint16{}, a[1:1+n]...))
+		}
+		{
+			a := make([]int32, n, n+spare)
+			b := make(myI32s, n, n+spare)
+			for j, w := range ws {
+				a[j], b[j] = int32(w), int32(w)
+			}
+			check("[]int32 cap>len", a, proto.TypeSliceInt32, a[:n:n])
+			check("named []int32 cap>len", b, proto.TypeSliceInt32, []int32(b[:n:n]))
+		}
+		{
+			a := make([]uint32, n, n+spare)
+			b := make(myU32s, n, n+spare)
+			for j, w := range ws {
+				a[j], b[j] = uint32(w), uint32(w)
+			}
+			check("[]uint32 cap>len", a, proto.TypeSliceUint32, a[:n:n])
+			check("named []uint32 cap>len", b, proto.TypeSliceUint32, []uint32(b[:n:n]))
+		}
+		{
+			a := make([]int64, n, n+spare)
+			b := make(myI64s, n, n+spare)
+			for j, w := range ws {
+				a[j], b[j] = int64(w), int64(w)
+			}
+			check("[]int64 cap>len", a, proto.TypeSliceInt64, a[:n:n])
+			check("named []int64 cap>len", b, proto.TypeSliceInt64, []int64(b[:n:n]))
+		}
+		{
+			a := make([]uint64, n, n+spare)
+			b := make(myU64s, n, n+spare)
+			copy(a, ws)
+			copy(b, ws)
+			check("[]uint64 cap>len", a, proto.TypeSliceUint64, a[:n:n])
+			check("named []uint64 cap>len", b, proto.TypeSliceUint64, []uint64(b[:n:n]))
+		}
+		{
+			a := make([]float32, n, n+spare)
+			b := make(myF32s, n, n+spare)
+			for j, w := range ws {
+				a[j], b[j] = float32(int32(w))/8, float32(int32(w))/8
+			}
+			check("[]float32 cap>len", a, proto.TypeSliceFloat32, a[:n:n])
+			check("named []float32 cap>len", b, proto.TypeSliceFloat32, []float32(b[:n:n]))
+		}
+		{
+			a := make([]float64, n, n+spare)
+			b := make(myF64s, n, n+spare)
+			for j, w := range ws {
+				a[j], b[j] = float64(int64(w))/8, float64(int64(w))/8
+			}
+			check("[]float64 cap>len", a, proto.TypeSliceFloat64, a[:n:n])
+			check("named []float64 cap>len", b, proto.TypeSliceFloat64, []float64(b[:n:n]))
+		}
+		{
+			a := make([]string, n, n+spare)
+			b := make(myStrs, n, n+spare)
+			for j := range a {
+				a[j] = string(r.utf8ish(3))
+				b[j] = a[j]
+			}
+			check("[]string cap>len", a, proto.TypeSliceString, a[:n:n])
+			check("named []string cap>len", b, proto.TypeSliceString, []string(b[:n:n]))
+		}
+		{
+			a := make([]bool, n, n+spare)
+			b := make(myBools, n, n+spare)
+			want := make([]typedef.Bool, n)
+			for j, w := range ws {
+				a[j], b[j] = w&1 == 1, w&1 == 1
+				if a[j] {
+					want[j] = typedef.BoolTrue
+				}
+			}
+			check("[]bool cap>len", a, proto.TypeSliceBool, want)
+			check("named []bool cap>len", b, proto.TypeSliceBool, want)
+		}
+		// named scalars of every kind
+		w := r.word()
+		check("named int8", myI8(w), proto.TypeInt8, int8(w))
+		check("named int16", myI16(w), proto.TypeInt16, int16(w))
+		check("named int32", myI32(w), proto.TypeInt32, int32(w))
+		check("named int64", myI64(w), proto.TypeInt64, int64(w))
+		check("named uint64", myU64(w), proto.TypeUint64, w)
+		check("named float64", myF64(float64(int64(w))/16), proto.TypeFloat64, float64(int64(w))/16)
+		v := proto.Uint16(uint16(w))
+		check("proto.Value itself", v, proto.TypeUint16, uint16(w))
 	}
 	for _, b := range []typedef.Bool{typedef.BoolFalse, typedef.BoolTrue, typedef.BoolInvalid} {
 		check("typedef.Bool", b, proto.TypeBool, b)
